@@ -99,7 +99,7 @@ def graphs(tier):
 
 
 def shards(tier):
-    return [("G", i) for i in range(NSHARDS)] + [("H", 0), ("H", 1), ("H", 2), ("H", 3), ("F", 0)]
+    return [("G", i) for i in range(NSHARDS)] + [("H", 0), ("H", 1), ("H", 2), ("H", 3), ("H", 4), ("F", 0)]
 
 
 ERRS = None
@@ -298,7 +298,11 @@ H3_FILES = {
 # aliases that only live in a SUBMODULE (and in a class there) and point into a package nothing else refers to: it is loaded on demand by
 # resolve_aliases(external=True) in the middle of the resolution loop, whose next round has to come back to that submodule
 H4_FILES = {"P/__init__.py": "", "P/sub.py": "from Q import thing\nclass K:\n    from Q import thing as kt\n    from R import gone as kg\n", "Q/__init__.py": "def thing(): ...\n"}
-FILESETS = [None, H2_FILES, H3_FILES, H4_FILES]  # (index 0: H_FILES, defined above)
+# three packages, loaded and resolved in stages: Q takes P's names through a wildcard import of a module that merely re-exports them (an alias over a resolved
+# alias), then R arrives, whose wildcard import into P displaces the function at the end of that chain by a dangling alias
+H5_FILES = {"P/__init__.py": "def obj(): ...\n\nfrom R import *\n", "P/api.py": "from P import obj\n", "P/sub.py": "from P.api import obj as so\n", "Q/__init__.py": "from P.api import *\n",
+            "R/__init__.py": "from missing import obj\n"}
+FILESETS = [None, H2_FILES, H3_FILES, H4_FILES, H5_FILES]  # (index 0: H_FILES, defined above)
 H_OPS = [("load", "P"), ("load", "Q"), ("load", "P.sub"), ("load", "R")] + [("resolve", i, e) for i in (False, True) for e in (None, False, True)]
 
 
@@ -350,6 +354,10 @@ def run_histories(griffe, tier, fileset=0):
                                 viols.append((f"fixpoint/history/external={ext}", f"repeating resolve_aliases(external={ext}) changed (resolved, target_path) of some alias or the unresolved set ({sorted(u1)} -> {sorted(u2)})", None))
                     except Exception as e:  # noqa: BLE001
                         viols.append((f"raise/{type(e).__name__}@{_frame(e)}/history-fixpoint", repr(e), None))
+                    # I2/I3 once more in the state the two resolutions leave behind (an alias that says "resolved" must reach an object there too)
+                    post = []
+                    _touch_all(griffe, loader, post, None)
+                    viols.extend((k + "/after-resolution", s_, w) for k, s_, w in post if k.startswith("partial/") and not any(k == v[0] for v in viols))
                     acc.transitions += 1
                     acc.traces += 1
                     desc = [" ".join(map(str, H_OPS[i])) for i in h2]
